@@ -14,6 +14,9 @@ type Segment struct {
 	ID    int
 	Lines []string
 	Meta  any
+	// Prefix is a line (typically the Schema line) that must have been played before this segment;
+	// it is emitted whenever it differs from the prefix of the previously emitted segment.
+	Prefix string
 }
 
 // Result of validating many segments.
@@ -44,7 +47,14 @@ func Validate(module, cfg string, consts map[string]string, segs []*Segment, max
 		var lines []string
 		var owner []int // index into remaining per line
 		var offset []int
+		lastPrefix := ""
 		for i, s := range remaining {
+			if s.Prefix != "" && s.Prefix != lastPrefix {
+				lines = append(lines, s.Prefix)
+				owner = append(owner, i)
+				offset = append(offset, -1)
+				lastPrefix = s.Prefix
+			}
 			for j, l := range s.Lines {
 				lines = append(lines, l)
 				owner = append(owner, i)
